@@ -150,6 +150,15 @@ DiamondP(u) ==
      sp \in Steps1, sc \in StepSeqsS, ip \in BOOLEAN, c1 \in ChainsUpTo1({Pass, Buf("linear")}),
      c3 \in ChainsUpTo1({Pass}),
      ord \in {<<1, 2, 3, 4, 5>>, <<5, 4, 3, 2, 1>>}}
+(* the same diamond read for two different times in one update: the branch through W2 is delayed *)
+(* (pulled first; delay <= consumer steps, so the requests arriving at W1's input stay monotone) *)
+DiamondPD(u) ==
+  {MkCfg(<<TimeC(sp, 0, FALSE, <<>>), PullC(<<Lk(1, c1)>>), PullC(<<Lk(2, <<>>)>>),
+           PullC(<<Lk(2, <<>>)>>), TimeC(sc, oc, FALSE, <<Lk(3, <<Fix(d)>>), Lk(4, c4)>>)>>,
+         ord, 7, "dag", "diamondpd") :
+     sp \in Steps1, sc \in {<<2>>, <<3>>, <<2, 3>>, <<5>>}, oc \in {0, 1}, c1 \in ChainsUpTo1({Pass}),
+     d \in {1, 2}, c4 \in ChainsUpTo1({Pass}),
+     ord \in {<<1, 2, 3, 4, 5>>, <<5, 4, 3, 2, 1>>, <<3, 5, 1, 4, 2>>}}
 (* a pull component with two inputs from the same producer through         *)
 (* different chains, and two pull components in a row                      *)
 PullChain2(u) ==
@@ -226,6 +235,16 @@ WSum(u) ==
      s1 \in Steps1, s2 \in {<<1>>, <<2>>}, s3 \in {<<1>>, <<3>>}, o3 \in {0, 1}, u3 \in {"m", "km"},
      c3 \in {<<>>, <<Fix(1)>>}, sc \in {<<1>>, <<2>>}, ip \in BOOLEAN, two \in BOOLEAN, rev \in BOOLEAN}
 
+StaticC == [kind |-> "static", steps |-> <<1>>, off |-> 0, ip |-> FALSE, ins |-> <<>>, u |-> "m", ws |-> FALSE]
+(* the merger's weights come from static outputs (no dependencies, declared between the value inputs): *)
+(* the producers behind the later inputs are still dependencies                                        *)
+WSumStatic(u) ==
+  {[MkCfg(<<TimeCU(s1, 0, "m"), [StaticC EXCEPT !.u = ""], TimeCU(s3, o3, "m"), [StaticC EXCEPT !.u = ""],
+            WSumC(<<Lk(1, <<>>), Lk(2, <<>>), Lk(3, c3), Lk(4, <<>>)>>), TimeC(sc, 0, ip, <<Lk(5, <<>>)>>)>>,
+           ord, 6, "dag", "wsumstatic") EXCEPT !.tb = 10] :
+     s1 \in Steps1, s3 \in Steps1, o3 \in {0, 1}, c3 \in {<<>>, <<Fix(1)>>}, sc \in {<<1>>, <<2>>, <<3>>}, ip \in BOOLEAN,
+     ord \in {<<1, 2, 3, 4, 5, 6>>, <<6, 5, 4, 3, 2, 1>>, <<6, 1, 2, 5, 4, 3>>}}
+
 (* two readers of the merger with different steps: the merger is asked for non-monotone times *)
 (* (2 then 1, 4 then 3) while the coarse producers still hold what the earlier time needs     *)
 WSumBack(u) ==
@@ -267,11 +286,11 @@ Finisher(u) ==
 (* static links inside a composition: a static generator (no time, one publication) feeds    *)
 (* static inputs (sins) of the producer and / or the consumer of a pair and of a ring member; *)
 (* static inputs are no dependencies (C01) and serve their cached value (C20)                  *)
-StaticC == [kind |-> "static", steps |-> <<1>>, off |-> 0, ip |-> FALSE, ins |-> <<>>, u |-> "m", ws |-> FALSE]
 StaticIn(u) ==
   {MkCfg(<<StaticC, TimeC(sa, o[1], FALSE, IF ring THEN <<Lk(3, <<Fix(4)>>)>> ELSE <<>>) @@ [sins |-> IF onp THEN <<1>> ELSE <<>>],
-           TimeC(sb, o[2], ip, <<Lk(2, ch)>>) @@ [sins |-> IF twice THEN <<1, 1>> ELSE <<1>>]>>,
+           TimeC(sb, o[2], ip, <<Lk(2, ch)>>) @@ [sins |-> IF twice THEN <<1, 1>> ELSE <<1>>, sfirst |-> sf]>>,
          ord, 5, IF ring THEN RingZone(4, MaxStep(sa) + MaxStep(sb), TRUE) ELSE "dag", "staticin") :
+     sf \in BOOLEAN,       \* the static inputs are declared before / after the ordinary ones (no difference in the design)
      sa \in Steps1, sb \in {<<1>>, <<2>>}, o \in {<<0, 0>>, <<0, 1>>, <<1, 0>>}, ip \in BOOLEAN, ch \in ChainsUpTo1(AtomsS),
      onp \in BOOLEAN, twice \in BOOLEAN, ring \in BOOLEAN, ord \in Perms3}
 
@@ -362,6 +381,8 @@ CfgSpace(f) ==
     [] f = "wsum"       -> WSum(0)
     [] f = "wsumback"   -> WSumBack(0)
     [] f = "pulltwice"  -> PullTwice(0)
+    [] f = "wsumstatic" -> WSumStatic(0)
+    [] f = "diamondpd"  -> DiamondPD(0)
     [] f = "fanoutshared" -> FanOutShared(0)
     [] f = "fanout3shared" -> FanOut3Shared(0)
     [] f = "repeatinteg" -> RepeatInteg(0)
@@ -376,6 +397,6 @@ CfgSpace(f) ==
 
 AllFamilies == {"pair", "pairL", "pairXL", "pair3", "chain3t", "chain3p", "fanin2", "fanin1",
                 "fanout", "pullfanout", "diamondt", "diamondp", "pullchain2", "ring2", "ring3",
-                "ring4", "pullring", "pullringtail", "ringbreak", "wsum", "pulltwice", "ring2tail", "fanoutshared", "repeatinteg", "sinkfan", "lateidle", "ringfanin", "fanout3shared", "chain3d", "wsumback", "finisher", "trigger", "staticin", "ringavg", "fanoutsum", "findep"}
+                "ring4", "pullring", "pullringtail", "ringbreak", "wsum", "pulltwice", "diamondpd", "wsumstatic", "ring2tail", "fanoutshared", "repeatinteg", "sinkfan", "lateidle", "ringfanin", "fanout3shared", "chain3d", "wsumback", "finisher", "trigger", "staticin", "ringavg", "fanoutsum", "findep"}
 
 =============================================================================
